@@ -124,3 +124,27 @@ Proof.
       destruct (k0 <=? 0) eqn:E2; cbn [length]; [lia|]. apply Z.leb_gt in E2. specialize (IH (k0 - 1)). lia. }
     specialize (H0 a (n - 1)). lia.
 Qed.
+
+(* 8. a negative '*' precision: as found the decoder rebuilds "%.-1d", printf takes it as "%d" (fix C14-5) *)
+Definition showfmt : list Z -> Z -> list Z -> list Z := fun f _ a => f ++ a.    (* prints the directive, then the bytes *)
+Definition f_negprec := [37;46;42;100;124].                                    (* "%.*d|" *)
+Lemma asfound_negative_precision :
+  roundtrip false showfmt 64 64 f_negprec [AInt (-1); AInt 5] (repeat 238 64) (repeat 90 64)
+  <> printf_spec showfmt f_negprec PLit [AInt (-1); AInt 5].
+Proof. vm_compute. discriminate. Qed.
+Lemma fixed_negative_precision :
+  roundtrip true showfmt 64 64 f_negprec [AInt (-1); AInt 5] (repeat 238 64) (repeat 90 64)
+  = printf_spec showfmt f_negprec PLit [AInt (-1); AInt 5] /\
+  printf_spec showfmt f_negprec PLit [AInt (-1); AInt 5] = [37;100;5;0;0;0;124].
+Proof. vm_compute. split; reflexivity. Qed.
+
+(* 9. the h modifier: as found "v=%hd|%d" with (5, 7) takes no argument for %hd and decodes to "v=hd|" + 5 (fix C14-6) *)
+Definition f_short := [118;61;37;104;100;124;37;100].                          (* "v=%hd|%d" *)
+Lemma asfound_short_modifier :
+  roundtrip false echo 64 64 f_short [AInt 5; AInt 7] (repeat 238 64) (repeat 90 64)
+  <> printf_spec echo f_short PLit [AInt 5; AInt 7].
+Proof. vm_compute. discriminate. Qed.
+Lemma fixed_short_modifier :
+  roundtrip true echo 64 64 f_short [AInt 5; AInt 7] (repeat 238 64) (repeat 90 64)
+  = printf_spec echo f_short PLit [AInt 5; AInt 7].
+Proof. vm_compute. reflexivity. Qed.
